@@ -25,6 +25,10 @@ def Compressed : Nat := 64
 def Encrypted : Nat := 128
 end packet
 
+namespace Packet
+def StreamProcessor_fields : List (String × String × String) := [("*dispose.ManagerBase", "*dispose.ManagerBase", ""), ("reader", "io.Reader", ""), ("writer", "io.Writer", ""), ("readLock", "sync.Mutex", ""), ("writeLock", "sync.Mutex", ""), ("bufferMgr", "*utils.BufferManager", "")]
+end Packet
+
 namespace packet.Type
 def IsHeartbeat (t : Nat) : Bool :=
   ((t &&& 0x3F) == packet.Heartbeat)
